@@ -1,5 +1,5 @@
 (* C01 - property theorems only; proofs live in KvC01.v (row level) and KvLift.v (histories). *)
-From Rosmar Require Import Base Json Crc Hlc Kv Store Trace KvTac KvRowOk KvLift KvFrame KvC01.
+From Rosmar Require Import Base Json Crc Hlc Kv Store Trace KvTac KvRowOk KvLift KvFrame KvC01 KvTrace.
 
 (* one call, any entry point, any arguments, any document state, any clock: the checker accepts *)
 Theorem C01_every_call : rc_sound chk_row_C01.
@@ -10,8 +10,10 @@ Print Assumptions C01_every_call.
    size limits, purges, collection creation/drop, expiry firings - is accepted by the executable
    checker that is also run on the traces recorded from the implementation *)
 Theorem C01_holds : forall c : scase, wf_case c -> chk_C01_kv (c, srun c) = true.
-Proof.
-  intros c Hwf. unfold chk_C01_kv. rewrite (chk_kv_sound chk_row_C01 C01_row_sound c Hwf). cbn [andb].
-  exact (walk_sound_gen chk_step_others_kept others_kept_step c (sc_steps c) store0 0 store0_ok store0_tables_ok Hwf).
-Qed.
+Proof. exact C01_kv_sound. Qed.
 Print Assumptions C01_holds.
+
+(* ... and so is the purge rule (PurgeTombstones takes away body-less documents only): the whole checker *)
+Theorem C01_holds_with_purge : forall c : scase, wf_case c -> chk_C01_full (c, srun c) = true.
+Proof. exact C01_full_sound. Qed.
+Print Assumptions C01_holds_with_purge.
